@@ -2,4 +2,3 @@
 #[derive(Clone, Copy, PartialEq, Eq, Debug)] pub struct CoeAbortCode(pub u32);
 #[derive(Clone, Copy, PartialEq, Eq, Debug)] pub struct AlStatusCode(pub u16);
 #[derive(Clone, Copy, PartialEq, Eq, Debug)] pub struct SubDeviceState(pub u8);
-#[derive(Clone, Copy, PartialEq, Eq, Debug)] pub struct Command(pub u8);
